@@ -276,128 +276,147 @@ func importedAsGiven(w *World, r *Report, rule string) {
 		if ig == nil {
 			continue
 		}
-		var gs *ssa.Parameter
-		var st *types.Struct
-		for _, p := range ig.Params {
-			if nt, ok := p.Type().(*types.Named); ok && nt.Obj().Name() == "GenesisState" {
-				gs = p
-				st, _ = nt.Underlying().(*types.Struct)
-			}
-		}
-		if gs == nil || st == nil {
-			continue
-		}
-		isGS := func(v ssa.Value) bool {
-			if v == ssa.Value(gs) {
-				return true
-			}
-			if al, ok := v.(*ssa.Alloc); ok {
-				return spilledValue(al) == ssa.Value(gs)
-			}
-			return false
-		}
-		// fieldOf: v is GenesisState field #i (elem=false) or an element of list field #i (elem=true)
-		var fieldOf func(v ssa.Value, d int) (int, bool, bool)
-		fieldOf = func(v ssa.Value, d int) (int, bool, bool) {
-			if d > 6 {
-				return 0, false, false
-			}
-			switch x := v.(type) {
-			case *ssa.UnOp:
-				if x.Op != token.MUL {
-					return 0, false, false
-				}
-				if al, ok := x.X.(*ssa.Alloc); ok && !isGS(al) {
-					if sv := spilledValue(al); sv != nil {
-						return fieldOf(sv, d+1)
-					}
-					return 0, false, false
-				}
-				switch a := x.X.(type) {
-				case *ssa.FieldAddr:
-					if isGS(a.X) {
-						return a.Field, false, true
-					}
-				case *ssa.IndexAddr:
-					if i, elem, ok := fieldOf(a.X, d+1); ok && !elem {
-						return i, true, true
-					}
-				case *ssa.UnOp:
-					// element of a list of pointers, dereferenced
-					if i, elem, ok := fieldOf(a, d+1); ok && elem {
-						return i, true, true
-					}
-				}
-			case *ssa.Field:
-				if x.X == ssa.Value(gs) {
-					return x.Field, false, true
-				}
-			}
-			return 0, false, false
-		}
-		all := ReachUnder(ig, func(ssa.Value) (bool, bool) { return false, false })
-		for _, s := range cg.Sites[ig] {
-			h := s.Static
-			if h == nil || s.Invoke || !w.isProdFunc(h) {
-				continue
-			}
-			if len(cg.targetsBelow(h, func(x *Site) bool { return cg.Atom(x) == StoreSet || x.Method == "SetParamSet" }, map[*ssa.Function]bool{})) == 0 {
-				continue
-			}
-			for ai, a := range s.Common().Args {
-				at := a.Type()
-				type cand struct {
-					i    int
-					elem bool
-				}
-				var cands []cand
-				for i := 0; i < st.NumFields(); i++ {
-					ft := st.Field(i).Type()
-					if types.Identical(ft, at) {
-						cands = append(cands, cand{i, false})
-						continue
-					}
-					if sl, ok := ft.Underlying().(*types.Slice); ok {
-						et := sl.Elem()
-						if pt, isP := et.(*types.Pointer); isP {
-							et = pt.Elem()
-						}
-						if types.Identical(et, at) {
-							cands = append(cands, cand{i, true})
-						}
-					}
-				}
-				if len(cands) == 0 {
+		// the import function and the step functions of its own package that are handed the whole GenesisState
+		igs := []*ssa.Function{ig}
+		seenIg := map[*ssa.Function]bool{ig: true}
+		for i := 0; i < len(igs) && i < 8; i++ {
+			for _, s := range cg.Sites[igs[i]] {
+				h := s.Static
+				if h == nil || s.Invoke || !w.isProdFunc(h) || h.Pkg != ig.Pkg || seenIg[h] {
 					continue
 				}
-				// every alternative is one and the same of the candidate fields
-				ok, bad := true, ""
-				alts := all.LiveValues(a)
-				got := cand{-1, false}
-				for _, alt := range alts {
-					i, elem, is := fieldOf(alt, 0)
-					isCand := false
-					for _, c := range cands {
-						if is && c.i == i && c.elem == elem {
-							isCand = true
+				for _, p := range h.Params {
+					if nt, ok := p.Type().(*types.Named); ok && nt.Obj().Name() == "GenesisState" {
+						seenIg[h] = true
+						igs = append(igs, h)
+					}
+				}
+			}
+		}
+		for _, ig := range igs {
+			var gs *ssa.Parameter
+			var st *types.Struct
+			for _, p := range ig.Params {
+				if nt, ok := p.Type().(*types.Named); ok && nt.Obj().Name() == "GenesisState" {
+					gs = p
+					st, _ = nt.Underlying().(*types.Struct)
+				}
+			}
+			if gs == nil || st == nil {
+				continue
+			}
+			isGS := func(v ssa.Value) bool {
+				if v == ssa.Value(gs) {
+					return true
+				}
+				if al, ok := v.(*ssa.Alloc); ok {
+					return spilledValue(al) == ssa.Value(gs)
+				}
+				return false
+			}
+			// fieldOf: v is GenesisState field #i (elem=false) or an element of list field #i (elem=true)
+			var fieldOf func(v ssa.Value, d int) (int, bool, bool)
+			fieldOf = func(v ssa.Value, d int) (int, bool, bool) {
+				if d > 6 {
+					return 0, false, false
+				}
+				switch x := v.(type) {
+				case *ssa.UnOp:
+					if x.Op != token.MUL {
+						return 0, false, false
+					}
+					if al, ok := x.X.(*ssa.Alloc); ok && !isGS(al) {
+						if sv := spilledValue(al); sv != nil {
+							return fieldOf(sv, d+1)
+						}
+						return 0, false, false
+					}
+					switch a := x.X.(type) {
+					case *ssa.FieldAddr:
+						if isGS(a.X) {
+							return a.Field, false, true
+						}
+					case *ssa.IndexAddr:
+						if i, elem, ok := fieldOf(a.X, d+1); ok && !elem {
+							return i, true, true
+						}
+					case *ssa.UnOp:
+						// element of a list of pointers, dereferenced
+						if i, elem, ok := fieldOf(a, d+1); ok && elem {
+							return i, true, true
 						}
 					}
-					if !isCand || (got.i >= 0 && (got.i != i || got.elem != elem)) {
-						ok = false
-						bad = w.Pos(alt.Pos())
+				case *ssa.Field:
+					if x.X == ssa.Value(gs) {
+						return x.Field, false, true
+					}
+				}
+				return 0, false, false
+			}
+			all := ReachUnder(ig, func(ssa.Value) (bool, bool) { return false, false })
+			for _, s := range cg.Sites[ig] {
+				h := s.Static
+				if h == nil || s.Invoke || !w.isProdFunc(h) {
+					continue
+				}
+				if len(cg.targetsBelow(h, func(x *Site) bool { return cg.Atom(x) == StoreSet || x.Method == "SetParamSet" }, map[*ssa.Function]bool{})) == 0 {
+					continue
+				}
+				for ai, a := range s.Common().Args {
+					at := a.Type()
+					type cand struct {
+						i    int
+						elem bool
+					}
+					var cands []cand
+					for i := 0; i < st.NumFields(); i++ {
+						ft := st.Field(i).Type()
+						if types.Identical(ft, at) {
+							cands = append(cands, cand{i, false})
+							continue
+						}
+						if sl, ok := ft.Underlying().(*types.Slice); ok {
+							et := sl.Elem()
+							if pt, isP := et.(*types.Pointer); isP {
+								et = pt.Elem()
+							}
+							if types.Identical(et, at) {
+								cands = append(cands, cand{i, true})
+							}
+						}
+					}
+					if len(cands) == 0 {
 						continue
 					}
-					got = cand{i, elem}
+					// every alternative is one and the same of the candidate fields
+					ok, bad := true, ""
+					alts := all.LiveValues(a)
+					got := cand{-1, false}
+					for _, alt := range alts {
+						i, elem, is := fieldOf(alt, 0)
+						isCand := false
+						for _, c := range cands {
+							if is && c.i == i && c.elem == elem {
+								isCand = true
+							}
+						}
+						if !isCand || (got.i >= 0 && (got.i != i || got.elem != elem)) {
+							ok = false
+							bad = w.Pos(alt.Pos())
+							continue
+						}
+						got = cand{i, elem}
+					}
+					if got.i < 0 {
+						got = cands[0]
+					}
+					want, wantElem := got.i, got.elem
+					what := "GenesisState." + st.Field(want).Name()
+					if wantElem {
+						what = "an element of " + what
+					}
+					r.Check(ok && len(alts) > 0, rule, fmt.Sprintf("%s import: argument #%d of %s is %s", m, ai, funcName(h), what), w.Pos(s.Instr.Pos()), fmt.Sprintf("%d alternative(s), each the field as given", len(alts)), "InitGenesis stores something else than the value the genesis document gives for "+what+" ("+bad+"): an exported state is changed by its import")
 				}
-				if got.i < 0 {
-					got = cands[0]
-				}
-				want, wantElem := got.i, got.elem
-				what := "GenesisState." + st.Field(want).Name()
-				if wantElem {
-					what = "an element of " + what
-				}
-				r.Check(ok && len(alts) > 0, rule, fmt.Sprintf("%s import: argument #%d of %s is %s", m, ai, funcName(h), what), w.Pos(s.Instr.Pos()), fmt.Sprintf("%d alternative(s), each the field as given", len(alts)), "InitGenesis stores something else than the value the genesis document gives for "+what+" ("+bad+"): an exported state is changed by its import")
 			}
 		}
 	}
